@@ -28,6 +28,8 @@ def plan(tier, seed):
     from . import c12
 
     cases += [dict(c, mode="live_fault") for c in c12.plan(tier, seed) if c["mode"] == "live"]
+    # paper trading (simulated execution on the pool of a live Flumine, completion reported by the poller)
+    cases += [{"mode": "paper_walk", "seed": seed, "idx": i, "len": 40 + i % 50} for i in range(300 if tier == "quick" else 6000)]
     return cases
 
 
@@ -182,6 +184,14 @@ def run_betdaq_walk(desc):
 def run(desc):
     if desc.get("mode") == "betdaq_walk":
         return run_betdaq_walk(desc)
+    if desc.get("mode") == "paper_walk":
+        from .. import paperwalk
+
+        r = paperwalk.walk(desc)
+        out = O.Out(PROPERTY)
+        O.c03_lifecycle(r.tr, out, r.snaps, exec_class="Paper")
+        out.c("paper_walks")
+        return out.result()
     if desc.get("mode") == "live_walk":
         from . import c11
 
